@@ -5,6 +5,7 @@ package otter
 // In-package accessors for the verification harness (dropped into a scratch copy only).
 
 import (
+	"math"
 	"fmt"
 	"unsafe"
 
@@ -140,7 +141,9 @@ func VerifAuditCache[K comparable, V any](cc *Cache[K, V], nowNano int64) *Verif
 				a.problem("audit.table-node-unlinked", "key=%v value=%v weight=%d", n.Key(), n.Value(), n.Weight())
 			}
 		}
-		if c.withExpiration && !inWheel[n.AsPointer()] {
+		// an entry that never expires (unreachable deadline) need not be scheduled; one with a finite
+		// deadline that the wheel does not hold will never be swept
+		if c.withExpiration && !inWheel[n.AsPointer()] && n.ExpiresAt() != math.MaxInt64 {
 			a.problem("audit.table-node-not-in-wheel", "key=%v value=%v expiresAt=%d", n.Key(), n.Value(), n.ExpiresAt())
 		}
 		return true
